@@ -68,6 +68,8 @@ type Result struct {
 	NOPs   int
 	// ValueEnds[i] is the offset just past top-level user value i.
 	ValueEnds []int
+	// ValueMaxIDs[i] is the max_id of the table in force at user value i.
+	ValueMaxIDs []int
 }
 
 // Options configure decoding.
@@ -144,6 +146,7 @@ func Decode(data []byte, opt Options) (*Result, error) {
 		}
 		d.res.Values = append(d.res.Values, v)
 		d.res.ValueEnds = append(d.res.ValueEnds, next)
+		d.res.ValueMaxIDs = append(d.res.ValueMaxIDs, d.tab.MaxID())
 		pos = next
 	}
 	return d.res, nil
